@@ -194,10 +194,19 @@ class LayoutGen:
     def special(self) -> List[str]:
         r = self.r
         k = r.choice(["assigned", "second_arg", "keyword", "listed", "cond_expr", "tuple", "concat", "comp",
-                      "semicolon", "helper", "default_arg", "subscript"])
+                      "semicolon", "helper", "default_arg", "subscript", "eager_nested", "eager_nested"])
         a = self.argname()
-        if self.real and k in ("second_arg", "keyword", "concat", "helper"):
+        if self.real and k in ("second_arg", "keyword", "concat", "helper", "eager_nested"):
             k = "cond_expr"
+        if k == "eager_nested":
+            # the body of the outer lambda is executed by `eager`, so the inner lambda really is passed;
+            # its signature differs from the enclosing lambda's (never nested in the same signature)
+            iargs = r.choice([[a, "b"], [a, "b"], [r.choice(["q", "k"])], [a + "2", "b"]])
+            iop = r.choice(["Select", "Select", "Where"])
+            m1 = self.marker("lambda", "Select", [a], True, True, "eager_outer")
+            m2 = self.marker("lambda", iop, iargs, True, False, "nested_passed")
+            inner = "%s%d%slambda %s: %s.v + %d" % (TAG_A, m2, TAG_B, ", ".join(iargs), iargs[0], m2)
+            return ["r = eager.Select(%s%d%slambda %s: (ds.%s(%s), %s.v + %d)[1])" % (TAG_A, m1, TAG_B, a, iop, inner, a, m1)]
         if k == "assigned":
             m = self.marker("lambda", "Select", [a], True, False, "assigned")
             return ["f_%d = %s" % (m, self.lam(m, [a], "Select", False)), "r = ds.Select(f_%d)" % m]
@@ -457,6 +466,18 @@ class Fake:
         return self
 
 
+class Eager(Fake):
+    """also executes the callable (as LINQ-to-objects would), so lambdas inside its body get passed"""
+
+    def Select(self, f=None, *a, **k):
+        self._rec("Select", f)
+        try:
+            f(S(1))
+        except Exception:  # noqa
+            pass
+        return self
+
+
 class RealProbe:
     """the real ObjectStream on an untyped dataset; each operator call is recorded with its outcome"""
 
@@ -498,6 +519,7 @@ def load_module(path: str, name: str, ds) -> Optional[str]:
     spec = importlib.util.spec_from_file_location(name, path)
     mod = importlib.util.module_from_spec(spec)
     mod.ds = ds
+    mod.eager = Eager(ds.log)
     sys.modules[name] = mod
     try:
         spec.loader.exec_module(mod)
@@ -580,7 +602,8 @@ class Stream:
                 self.rows.append((first + t.start[0], KIND.get(t.type, "x"), t.string))
         except Exception as e:  # noqa
             self.infos.append(None)
-            self.rows.append((self.rows[-1][0] if self.rows else first + 1, "e", type(e).__name__))
+            # the exception is raised while reading the text after the last token: next row
+            self.rows.append((self.rows[-1][0] + 1 if self.rows else first + 1, "e", type(e).__name__))
         self.enc = ";".join("%d,%s,%s" % (r, k, hx(s)) for r, k, s in self.rows)
 
     def index_of(self, row: int, col: int) -> Optional[int]:
@@ -707,9 +730,9 @@ def behaves_like(f, lam: ast.AST) -> Tuple[bool, str]:
     """apply the real callable and the recovered lambda to the same sample objects"""
     try:
         g = eval(compile(ast.fix_missing_locations(ast.Expression(body=lam)), "<recovered>", "eval"),
-                 {"str": str, "len": len})
+                 dict(getattr(f, "__globals__", {})))
     except Exception as e:  # noqa
-        return False, "recovered lambda does not compile: %s" % type(e).__name__
+        return False, "recorded lambda cannot be evaluated: %s" % type(e).__name__
     nargs = f.__code__.co_argcount
     for seed in (1, 2, 5):
         args = [S(seed + i) for i in range(nargs)]
